@@ -390,6 +390,64 @@ ASSUMPTIONS = [
 OUTSIDE = ["newick / JSON text round trip of arbitrary names and float formatting", "phylo.tree_distance metrics", "trees with > 6 tips", "None / zero branch lengths"]
 TRUSTED = ["the parent-pointer path-length walker and split-set extractor in props/c09.py"]
 
+# ---------------------------------------------------------------- names through the text routes
+NAME_ALPHABETS = {
+    # newick punctuation, the quote, blank and underscore (which newick equates with a blank), and an ordinary letter
+    "punct": "a (:,;['_\"",
+    "blank": "a _",
+}
+
+
+NAMES_KNOWN_KEY = "get_newick:name-enclosed-in-single-quotes"
+NAMES_KNOWN_KEY2 = "newick-tokeniser:label-starting-with-an-escaped-quote"
+
+
+def _leading_quote(name):
+    """known findings, both about names that START with a single quote: enclosed in quotes -> get_newick writes it verbatim as
+    'already quoted'; otherwise it is written as '''x...' and the tokeniser reads the first two quotes as an empty label"""
+    return name[:1] == "'"  # (startswith / name[0] trip a CrossHair internal error on bounded strings)
+
+
+def mk_names(route, which, maxlen, alpha, exclude_known=False):
+    """One node NAME is a symbolic printable string; the tree goes through JSON (to_rich_dict -> deserialise_tree) or Newick
+    (get_newick(with_distances) -> make_tree): same tip set, same node names, same lengths on the named edges."""
+    chars = NAME_ALPHABETS[alpha]
+
+    def check(name: str) -> bool:
+        """
+        pre: 1 <= len(name) <= maxlen and all(c in chars for c in name)
+        pre: name == name.strip()
+        post: _
+        """
+        import cogent3
+        from cogent3.util.deserialise import deserialise_tree
+
+        _ = (maxlen, chars)
+        if exclude_known and _leading_quote(name):
+            return True
+        t = cogent3.make_tree(treestring="((x:1,b:2)y:3,c:4)root;")
+        t.get_node_matching_name("x" if which == "tip" else "y").name = name
+        if route == "json":
+            d = t.to_rich_dict()
+            if W.PLAIN:
+                import json
+
+                d = json.loads(json.dumps(d))
+            r = deserialise_tree(dict(d))
+        else:
+            # newick writes a blank as an underscore; the reader turns it back with underscore_unmunge
+            r = cogent3.make_tree(treestring=t.get_newick(with_distances=True, with_node_names=True), underscore_unmunge=True)
+        if not W.reach("end"):
+            return False
+        want = {(n.name, n.length) for n in t.get_edge_vector(include_root=False)}
+        got = {(n.name, n.length) for n in r.get_edge_vector(include_root=False)}
+        if sorted(r.get_tip_names()) != sorted(t.get_tip_names()):
+            return False
+        return want == got
+
+    return check
+
+
 _OPS = ["unrooted", "unrooted_deepcopy", "rooted_at", "rooted_with_tip", "deepcopy", "sorted", "sub", "sub_keep_root", "distances", "midpoint", "rich_dict"]
 
 
@@ -407,6 +465,14 @@ def obligations(tier):
                 obs.append(Ob(f"midpoint/{s['id']}", __name__, "mk_midpoint", {"shape_id": s["id"]}, kind="direct", timeout=900, group=op))
                 continue
             obs.append(Ob(f"{op}/{s['id']}", __name__, "mk", {"shape_id": s["id"], "op": op}, timeout=600, group=op))
+    for route in ("json", "newick"):
+        for which in ("tip", "internal"):
+            a2 = {"route": route, "which": which, "maxlen": 2, "alpha": "punct"}
+            obs.append(Ob(f"names/{route}/{which}/len2/punct", __name__, "mk_names", a2, timeout=900, group="names", expect_known=NAMES_KNOWN_KEY))
+            obs.append(Ob(f"names_excl_known/{route}/{which}/len2/punct", __name__, "mk_names", dict(a2, exclude_known=True), timeout=900, group="names"))
+            obs.append(Ob(f"names/{route}/{which}/len3/blank", __name__, "mk_names", {"route": route, "which": which, "maxlen": 3, "alpha": "blank"}, timeout=900, group="names"))
+            if T:
+                obs.append(Ob(f"names_excl_known/{route}/{which}/len3/punct", __name__, "mk_names", {"route": route, "which": which, "maxlen": 3, "alpha": "punct", "exclude_known": True}, timeout=3600, group="names"))
     for s in EXTRA:
         for op in ("prune", "sub", "rooted_with_tip", "distances", "unrooted_deepcopy"):
             obs.append(Ob(f"{op}/{s['id']}", __name__, "mk", {"shape_id": s["id"], "op": op}, timeout=600, group=op))
@@ -414,6 +480,13 @@ def obligations(tier):
 
 
 def classify(name, args, cex, rep):
+    if name.startswith("names"):
+        nm = cex.get("name", "")
+        if nm[:1] == "'":
+            return NAMES_KNOWN_KEY if nm[-1:] == "'" else NAMES_KNOWN_KEY2
+        if "/json/" in name:
+            return "to_rich_dict:names-with-newick-punctuation"
+        return "newick:quoted-label-equal-to-a-token"
     op = args["op"]
     if op == "unrooted":
         return "unrooted:collapsed-root-child-lengths-inflated"
